@@ -121,7 +121,9 @@ CHECKS["C05"] = {
     "bounds": {"quick": "micro depth 4 (2 cfgs), macro depth 5 (2 cfgs), micro depth 3 with one callback deviation", "thorough": "micro depth 5, macro depth 7/6, deviations to depth 4, 4 cfgs"},
     "mc_explanation": "states/transitions are those of the implementation itself (no model): the transition function is htp_connp_req_data/res_data/close on a replayed history. Counts are summed over the 16 worker processes: a state or trace reached by several workers is counted by each of them, so 'states' is an upper bound of the distinct ones (single-process count for statemc micro depth 4: 8.9e5 against 1.25e6 summed).",
     "assumptions": ["token alphabets of mc/statemc.c", "exact canonical state (DESIGN §4.3)"],
-    "jobs": lambda tier: _statemc("C05", tier, asan_too=False) + _edits(tier, cfgs=(0, 1)) + _bisim(tier),
+    "jobs": lambda tier: _statemc("C05", tier, asan_too=False) + _edits(tier, cfgs=(0, 1, 3)) + _bisim(tier) +
+                         # the CONNECT / upgrade schedules of C16 (incl. a server that greets with a text line inside the tunnel) carry the lifecycle monitor too
+                         [J("cutmc", "plain", ["--mode", "tunnel"])],
 }
 
 
@@ -173,16 +175,17 @@ CHECKS["C04"] = {
 CHECKS["C16"] = {
     "level": "model_checking",
     "technique": "exhaustive enumeration of every cut position of both streams (full product) and of all legal interleavings over a CONNECT / upgrade scenario product, with a tunnel reference monitor, on the real code",
-    "level_text": "CONNECT (and GET+Upgrade) exchanges x status {200,204,101,407,403,500} x payload {none, 2 HTTP requests, TLS-like bytes} x optional body, each stream uncut or cut at "
-                  "every position in a +-3 byte window around the end of the CONNECT head / response head, every legal interleaving of the resulting chunks, both tx_auto_destroy "
-                  "settings, under the documented hand-over. Oracle: (i) nothing beyond the CONNECT head is consumed before the first response byte; (ii) for 2xx+non-HTTP payload or "
+    "level_text": "CONNECT (and GET+Upgrade) exchanges x status {200,204,101,407,403,500} x payload {none, 2 HTTP requests, TLS-like bytes with / without LF, 2 HTTP requests answered after a text greeting} x optional body "
+                  "x {final answer alone, preceded by an interim 100 Continue}, each stream uncut or cut at EVERY position (full product request cut x response cut), for the HTTP payloads "
+                  "additionally with the request stream cut at the end of the CONNECT head (and the response stream where the greeting ends), every legal interleaving of the resulting "
+                  "chunks (up to 20 per chunking), both tx_auto_destroy settings, under the documented hand-over. Oracle: (i) nothing beyond the CONNECT head is consumed before the first response byte; (ii) for 2xx+non-HTTP payload or "
                   "101 a data call reports TUNNEL and from then on every call of both directions reports TUNNEL and runs no callback; (iii) refused CONNECT or HTTP-in-tunnel: exactly "
                   "the payload requests become transactions, paired with their responses, every request byte consumed exactly once, no ERROR. The CONNECT/101/407 tokens are also in "
                   "the statemc alphabets (monitors only).",
     "level_note": "'After which' is read literally: bytes offered before tunnel mode is entered are not judged by (ii). Refused CONNECT followed by non-HTTP bytes is outside the statement.",
     "design_ref": "DESIGN.md §6 C16",
     "rule": "scenario product x (request cut position or none) x (response cut position or none) x all legal interleavings; distinct = distinct callback traces",
-    "bounds": {"quick": "no cut or one cut at EVERY position of each stream (full product request cut x response cut), all interleavings (<=6 per chunking), plain + ASan: 6.9e5 executions", "thorough": "same product (fully enumerated in both tiers) + statemc macro depth 6 with the CONNECT tokens"},
+    "bounds": {"quick": "no cut or one cut at EVERY position of each stream (full product request cut x response cut) + forced cuts at the head / greeting end, all interleavings (<=20 per chunking), plain + ASan: 3.3e6 executions", "thorough": "same product (fully enumerated in both tiers) + statemc macro depth 6 with the CONNECT tokens"},
     "mc_explanation": "states = distinct callback traces, transitions = data calls on the real parser",
     "assumptions": ["IDS personality", "QUICK_START hand-over as implemented in mc/hx_run.c"],
     "jobs": lambda tier: [J("cutmc", "plain", ["--mode", "tunnel"]), J("cutmc", "asan", ["--mode", "tunnel"])] +
